@@ -11,6 +11,7 @@ import (
 	"crypto/sha256"
 	"encoding/binary"
 	"encoding/hex"
+	"encoding/json"
 	"fmt"
 	"os"
 	"path/filepath"
@@ -669,7 +670,7 @@ func (b *c08Builder) add(target int, fi [5]uint16, data []byte, origin, base str
 	if sc.S > c09SMax {
 		// outside the C09 quantifier; still a C08 input, but it may legitimately need a lot of time and memory:
 		// run a bounded number of them with a short watchdog
-		lim := 160
+		lim := 100
 		if b.c.Thorough() {
 			lim = 1500
 		}
@@ -786,7 +787,7 @@ func (b *c08Builder) mutate(s *c08Seed, target int, light bool) {
 			if light {
 				strong, weak = pick(strong, 40), pick(weak, 10)
 			} else {
-				strong, weak = pick(strong, 360), pick(weak, 90)
+				strong, weak = pick(strong, 270), pick(weak, 70)
 			}
 		} else if light {
 			strong, weak = pick(strong, 400), pick(weak, 100)
@@ -1130,9 +1131,29 @@ func c08BuildJobs(c *hx.Ctx) []c08Job {
 	for _, bs := range c08Boundary() {
 		b.add(c08TargetIdx(bs.target), bs.fi, bs.data, "boundary", bs.name)
 	}
-	for _, rg := range c08Regressions {
-		data, _ := hex.DecodeString(rg.hex)
-		b.add(c08TargetIdx(rg.target), rg.fi, data, "regression", rg.name)
+	for _, rg := range c08LoadCorpus(c) {
+		data, _ := hex.DecodeString(rg.Hex)
+		ti := -1
+		for i, t := range c08Targets {
+			if t.Name == rg.Target {
+				ti = i
+			}
+		}
+		if ti < 0 {
+			c.Count("corpus-file-unknown-target")
+			continue
+		}
+		var fi [5]uint16
+		if rg.FrameInfo != nil {
+			fi = [5]uint16{rg.FrameInfo["width"], rg.FrameInfo["height"], rg.FrameInfo["bitsAllocated"], rg.FrameInfo["samplesPerPixel"], rg.FrameInfo["planar"]}
+		}
+		b.add(ti, fi, data, "regression", rg.Name)
+		// the same witness through the sibling entry points of its family
+		for tj, t := range c08Targets {
+			if tj != ti && t.Family == c08Targets[ti].Family && t.Family != "rle" {
+				b.add(tj, fi, data, "regression", rg.Name)
+			}
+		}
 	}
 	// 65024 quality layers declared for an 8x8 image (C09: time is not bounded by input length and S)
 	for i := range seeds {
@@ -1425,7 +1446,9 @@ func c08Main(c *hx.Ctx) {
 			} else {
 				c.Count("no-answer(C09's business):" + r.Outcome)
 			}
-			if r.Outcome == "crash" && !strings.Contains(r.Text, "out of memory") {
+			// (a silent death of an input declaring more than 2^22 samples is the memory kill switch or the
+			// kernel's, not a verdict)
+			if r.Outcome == "crash" && !strings.Contains(r.Text, "out of memory") && !(j.S > c09SMax && strings.TrimSpace(r.Text) == "") {
 				// a death that is not an OOM abort (e.g. stack overflow, fatal error) is not a return either
 				cl := "process-death-" + tname
 				if h, ok := classes[cl]; ok {
@@ -1501,20 +1524,38 @@ func c08DumpLen(outcome string) int {
 	return 4000
 }
 
-// c08Regressions: minimised witnesses of earlier runs (every class once), replayed first in every run so that a
-// known class is re-observed — or seen to be gone — independently of this run's sampling.
-var c08Regressions = []struct {
-	name, target string
-	fi           [5]uint16
-	hex          string
-}{
-	{"huffman-build-oversubscribed-bits", "jpeg-baseline", [5]uint16{}, "ffd8ffc400160003000000000000000000000000000000010203"},
-	{"huffman-build-oversubscribed-bits", "jpeg-lossless", [5]uint16{}, "ffd8ffc400160003000000000000000000000000000000010203"},
-	{"huffman-build-oversubscribed-bits", "jpeg-sv1", [5]uint16{}, "ffd8ffc400160003000000000000000000000000000000010203"},
-	{"sv1-td-selector", "jpeg-sv1", [5]uint16{}, "ffd8ffc3000b020001000101011100ffda0008010104010000"},
-	{"jls-precision-overflow", "jls-lossless", [5]uint16{}, "ffd8fff7000b400001000101011100"},
-	{"mq-rawdecode-past-end", "j2k", [5]uint16{}, "ff4fff51002f000000000003000000020000000000000000000000030000000200000000000000000003070101070101070101ff52000c00000001010002022101ff5c00044040ff90000a00000000002b0001ff93cfb41c078ba6d9af83e7df80380c46"},
-	{"mq-bytein-past-sentinel", "j2k", [5]uint16{}, "ff4fff510029000000000001000000010000000000000000000000010000000100000000000000000001070101ff52000c00000001000002022101ff5c00044040ff90000a0000000000120001ff93c7d40207"},
-	{"ht-codeblock-1-byte", "htj2k", [5]uint16{}, "ff4fff510029000000000001000000010000000000000000000000010000000100000000000000000001070101ff52000c0000000100000202c001ff5c00044040ff90000a0000000000120001ff93c70207"},
-	{"baseline-tq-selector", "jpeg-baseline", [5]uint16{}, "ffd8ffc0000b080001000101001104ffc40014000100000000000000000000000000000006ffc40014100100000000000000000000000000000000ffda0008010000003f0006"},
+// c08CorpusFile: one committed minimised witness under corpus/C08/ (replayed first in every run, so that a
+// repaired class is seen to stay repaired — and a known one re-observed — independently of this run's sampling).
+type c08CorpusFile struct {
+	Name      string            `json:"name"`
+	Target    string            `json:"target"`
+	Hex       string            `json:"hex"`
+	FrameInfo map[string]uint16 `json:"frameInfo"`
+}
+
+func c08LoadCorpus(c *hx.Ctx) []c08CorpusFile {
+	var out []c08CorpusFile
+	for _, dir := range []string{os.Getenv("VERIF_CORPUS"), filepath.Join("..", "corpus", "C08"), filepath.Join("corpus", "C08")} {
+		if dir == "" {
+			continue
+		}
+		ms, _ := filepath.Glob(filepath.Join(dir, "*.json"))
+		if len(ms) == 0 {
+			continue
+		}
+		sort.Strings(ms)
+		for _, m := range ms {
+			b, err := os.ReadFile(m)
+			if err != nil {
+				continue
+			}
+			var f c08CorpusFile
+			if json.Unmarshal(b, &f) == nil && f.Target != "" {
+				out = append(out, f)
+			}
+		}
+		break
+	}
+	c.CountN("corpus-files(corpus/C08)", len(out))
+	return out
 }
